@@ -88,11 +88,15 @@ def run : Nat → Ctx → Val → Ast → Res
     | .quote a => ok (.src a)
     | .lit v => ok v
     | .tnil => ok .nil
-    | .var x => (match s.get x with | some v => ok v | none => fail)
+    | .var x =>
+      -- IdentExpr.Eval / DynIdentExpr.Eval (ctx.Value(DynIdent(ident)))
+      (match (if isDyn x then c.dyn else s).get x with | some v => ok v | none => fail)
     | .lam x b => ok (.clo s x b)                                   -- Function.Eval: NewClosure(local, f)
     | .app f a =>                                                   -- BinExpr.Eval: a, then b, then Call
       (run n c s f).bind fun vf => (run n c s a).bind fun va => call n c vf va
-    | .letE x v b => (run n c s v).bind fun vv => run n c (s.bind x vv) b
+    | .letE x v b => (run n c s v).bind fun vv =>
+      if isDyn x then run n { c with dyn := c.dyn.bind x vv } s b      -- DynIdentPattern.Bind
+      else run n c (s.bind x vv) b
     | .tcons k v r => (run n c s v).bind fun vv => (run n c s r).bind fun vr => ok (.cons k vv vr)
     | .dot e k => (run n c s e).bind fun t => getAttr t k
     | .pkg k =>
@@ -112,7 +116,9 @@ def call : Nat → Ctx → Val → Val → Res
   | 0, _, _, _ => fail
   | n+1, c, f, a =>
     match f with
-    | .clo env x b => run n c (env.bind x a) b                      -- c.scope.Update(scope)
+    | .clo env x b =>
+      if isDyn x then run n { c with dyn := c.dyn.bind x a } env b    -- DynIdentPattern.Bind: into the context
+      else run n c (env.bind x a) b                                   -- IdentPattern.Bind; c.scope.Update(scope)
     | .nat names cap held =>
       (match names with
       | [] => fail
@@ -154,7 +160,10 @@ def contextualEval : Nat → Ctx → EvalConfig → Val → Res
   | 0, _, _, _ => fail
   | n+1, c, ec, v =>
     match v with
-    | .src a => evalWithScope n { c with sandboxed := true } a (sandboxScope W ec)
+    | .src a =>
+      -- the Go context — and with it every dynamic variable the caller bound — is passed on unchanged
+      let c' : Ctx := if W.fixes.dynBarrier then { c with dyn := .nil } else c
+      evalWithScope n { c' with sandboxed := true } a (sandboxScope W ec)
     | _ => fail
 
 /-- eval.go EvalWithScope -/
@@ -172,7 +181,7 @@ def evalWithScope : Nat → Ctx → Ast → Val → Res
 end
 
 /-- the context of a top-level evaluation -/
-def ctx0 : Ctx := ⟨false, false, none⟩
+def ctx0 : Ctx := ⟨false, false, none, .nil⟩
 
 /-- what the property is about: source `a` evaluated by //eval.evaluator(cfg).eval (or //eval.eval for
 the empty config) -/
